@@ -1,2 +1,358 @@
-(* Props/C09.v — under construction *)
+(* Props/C09.v — Property C09: lazily tracked fermionic signs are unobservable.
+
+   Model: Model/Fermi.v.  A fermionic array `x : farray G R` is an abelian array
+   `fbase x` of raw blocks, a table `fphases x` of the sectors carrying a pending
+   factor -1, and odd-position labels `foddpos x`.  `f_phase_sync x` multiplies
+   the pending signs into the blocks and clears the table; `f_value x` is the
+   abelian array of blocks with the signs multiplied in.
+
+   Vocabulary (defined in Proofs/LazyProofs.v):
+     feq G R x y        x ~ y : f_value x = f_value y /\ foddpos x = foddpos y
+                        (C09_equiv_spec: same indices, charge, labels, sector
+                        list and signed blocks; C09_equiv_iff_sync: the
+                        synchronised copies are EQUAL)
+     a_signmap G R c v  multiply the block of every stored sector s with c s = true by -1
+     v_transpose, v_conj, v_dagger, vop   what each instruction does to the VALUE
+     lop G              the instruction set: LFlip, LPhaseTranspose, LSector, LGlobal,
+                        LSync, LTranspose, LConj, LDagger;  run_op / run_ops execute it
+                        on the lazy representation, vrun on (value, labels)
+     lop_ok n op        side condition: transposition axes are a permutation of
+                        0..n-1, an explicitly named sector has length n
+     lwf G R x          the dict invariant: stored sectors are pairwise distinct and
+                        they and the table's keys have the array's rank
+     tdot_inj, einsum_perm   the axis permutations used by tensordot / einsum are
+                        injective on the stored sectors (implied by lwf and valid axes:
+                        C09_tensordot_sync_lwf)
+   Ring laws appear as explicit premises: rneg (rneg a) = a, rneg 0 = 0,
+   rconj (rneg a) = rneg (rconj a); ZRing and GRing satisfy them
+   (C09_*_ZRing / C09_*_GRing).  All statements hold for every rank, every index
+   table, every symmetry with the group laws. *)
 From SV Require Import Base.Prelude.
+From SV Require Import Base.Sym Base.Tensor Model.Sectors Model.Array Model.Arith Model.Fermi
+  Proofs.LazyProofs.
+From Coq Require Import Permutation.
+Local Open Scope nat_scope.
+
+(* ---- 1. synchronising ---- *)
+Theorem C09_sync_value :
+  forall (G : Symmetry) (R : Ring) (x : farray G R),
+  f_value G R (f_phase_sync G R x) = f_value G R x.
+Proof. exact sync_value. Qed.
+
+Theorem C09_sync_phases_empty :
+  forall (G : Symmetry) (R : Ring) (x : farray G R),
+  fphases G R (f_phase_sync G R x) = [].
+Proof. exact sync_phases_empty. Qed.
+
+Theorem C09_sync_idem :
+  forall (G : Symmetry) (R : Ring) (x : farray G R),
+  f_phase_sync G R (f_phase_sync G R x) = f_phase_sync G R x.
+Proof. exact sync_idem. Qed.
+
+(* ---- 2. the equivalence and the key lemma on sign tables ---- *)
+Theorem C09_equiv_spec :
+  forall (G : Symmetry) (R : Ring) (x y : farray G R),
+  feq G R x y <->
+  indices G R (fbase G R x) = indices G R (fbase G R y) /\
+  charge G R (fbase G R x) = charge G R (fbase G R y) /\
+  foddpos G R x = foddpos G R y /\
+  fsectors G R x = fsectors G R y /\
+  signed_blocks G R x = signed_blocks G R y.
+Proof. exact feq_spec. Qed.
+
+Theorem C09_equiv_iff_sync :
+  forall (G : Symmetry) (R : Ring) (x y : farray G R),
+  feq G R x y <-> f_phase_sync G R x = f_phase_sync G R y.
+Proof. exact feq_iff_sync. Qed.
+
+Theorem C09_sync_equiv :
+  forall (G : Symmetry) (R : Ring) (x : farray G R), feq G R (f_phase_sync G R x) x.
+Proof. exact sync_feq. Qed.
+
+Theorem C09_toggle_stored :
+  forall G : Symmetry, GroupLaws G ->
+  forall (c : list (C G) -> bool) (l ph0 : list (list (C G))) (s : list (C G)),
+  NoDup l -> In s l ->
+  ph_has G s (fold_left (fun ph a => if c a then ph_toggle G ph a else ph) l ph0)
+  = xorb (ph_has G s ph0) (c s).
+Proof. exact fold_toggle_stored. Qed.
+
+Theorem C09_toggle_not_stored :
+  forall G : Symmetry, GroupLaws G ->
+  forall (c : list (C G) -> bool) (l ph0 : list (list (C G))) (s : list (C G)),
+  NoDup l -> ~ In s l ->
+  ph_has G s (fold_left (fun ph a => if c a then ph_toggle G ph a else ph) l ph0)
+  = ph_has G s ph0.
+Proof. exact fold_toggle_not_stored. Qed.
+
+(* ---- 3. what each operation does at value level ---- *)
+Theorem C09_value_phase_flip :
+  forall (G : Symmetry) (R : Ring), GroupLaws G ->
+  (forall a : RT R, rneg R (rneg R a) = a) ->
+  forall (x : farray G R) (axs : list nat),
+  NoDup (fsectors G R x) ->
+  f_value G R (f_phase_flip G R x axs)
+  = a_signmap G R (fun s => count_odd G s axs) (f_value G R x).
+Proof. exact value_phase_flip. Qed.
+
+Theorem C09_value_phase_transpose :
+  forall (G : Symmetry) (R : Ring), GroupLaws G ->
+  (forall a : RT R, rneg R (rneg R a) = a) ->
+  forall (x : farray G R) (perm : option (list nat)),
+  NoDup (fsectors G R x) ->
+  f_value G R (f_phase_transpose G R x perm)
+  = a_signmap G R (fun s => perm_minus G s perm) (f_value G R x).
+Proof. exact value_phase_transpose. Qed.
+
+Theorem C09_value_phase_sector :
+  forall (G : Symmetry) (R : Ring), GroupLaws G ->
+  (forall a : RT R, rneg R (rneg R a) = a) ->
+  forall (x : farray G R) (s0 : list (C G)),
+  f_value G R (f_phase_sector G R x s0)
+  = a_signmap G R (fun s => list_eqb (ceqb G) s s0) (f_value G R x).
+Proof. exact value_phase_sector. Qed.
+
+Theorem C09_value_phase_global :
+  forall (G : Symmetry) (R : Ring), GroupLaws G ->
+  (forall a : RT R, rneg R (rneg R a) = a) ->
+  forall x : farray G R,
+  NoDup (fsectors G R x) ->
+  f_value G R (f_phase_global G R x) = a_neg G R (f_value G R x).
+Proof. exact value_phase_global. Qed.
+
+Theorem C09_value_transpose :
+  forall (G : Symmetry) (R : Ring), GroupLaws G ->
+  (forall a : RT R, rneg R (rneg R a) = a) ->
+  rneg R (r0 R) = r0 R ->
+  forall (x : farray G R) (axes : list nat) (phase : bool),
+  inj_on (fun s : list (C G) => permuted (ident G) s axes)
+    (fsectors G R x ++ (if phase then [] else fphases G R x)) ->
+  f_value G R (f_transpose G R x axes phase)
+  = a_transpose G R
+      (if phase then a_signmap G R (fun s => perm_minus G s (Some axes)) (f_value G R x)
+       else f_value G R x) axes.
+Proof. exact value_transpose. Qed.
+
+Theorem C09_value_conj :
+  forall (G : Symmetry) (R : Ring), GroupLaws G ->
+  (forall a : RT R, rneg R (rneg R a) = a) ->
+  (forall a : RT R, rconj R (rneg R a) = rneg R (rconj R a)) ->
+  forall (x : farray G R) (pp pd : bool),
+  NoDup (fsectors G R x) ->
+  f_value G R (f_conj G R x pp pd)
+  = let v := f_value G R x in
+    let y := a_conj G R
+               (a_signmap G R
+                  (fun s => xorb (pp && perm_minus G s None)
+                                 (pd && count_odd G s (conj_axes G (indices G R v)))) v) in
+    if pp && parity G (charge G R y) && Nat.odd (length (oddpos_dag (foddpos G R x)))
+    then a_neg G R y else y.
+Proof. exact value_conj. Qed.
+
+Theorem C09_value_dagger :
+  forall (G : Symmetry) (R : Ring), GroupLaws G ->
+  (forall a : RT R, rneg R (rneg R a) = a) ->
+  rneg R (r0 R) = r0 R ->
+  (forall a : RT R, rconj R (rneg R a) = rneg R (rconj R a)) ->
+  forall (x : farray G R) (pd : bool),
+  NoDup (fsectors G R x) ->
+  Forall (fun s : list (C G) => length s = ndim G R (fbase G R x)) (fsectors G R x) ->
+  f_value G R (f_dagger G R x pd)
+  = let y := a_dagger G R (f_value G R x) in
+    let y := if parity G (charge G R y) && Nat.odd (length (oddpos_dag (foddpos G R x)))
+             then a_neg G R y else y in
+    if pd then a_signmap G R (fun s => count_odd G s (nondual_axes G (indices G R y))) y else y.
+Proof. exact value_dagger. Qed.
+
+Theorem C09_run_op_value :
+  forall (G : Symmetry) (R : Ring), GroupLaws G ->
+  (forall a : RT R, rneg R (rneg R a) = a) ->
+  rneg R (r0 R) = r0 R ->
+  (forall a : RT R, rconj R (rneg R a) = rneg R (rconj R a)) ->
+  forall (op : lop G) (x : farray G R),
+  lwf G R x -> lop_ok G (ndim G R (fbase G R x)) op ->
+  f_value G R (run_op G R op x) = vop G R op (f_value G R x) (foddpos G R x).
+Proof. exact run_op_value. Qed.
+
+Theorem C09_run_op_lwf :
+  forall (G : Symmetry) (R : Ring) (op : lop G) (x : farray G R),
+  lwf G R x -> lop_ok G (ndim G R (fbase G R x)) op ->
+  lwf G R (run_op G R op x) /\ ndim G R (fbase G R (run_op G R op x)) = ndim G R (fbase G R x).
+Proof. exact run_op_lwf. Qed.
+
+Theorem C09_op_congr :
+  forall (G : Symmetry) (R : Ring), GroupLaws G ->
+  (forall a : RT R, rneg R (rneg R a) = a) ->
+  rneg R (r0 R) = r0 R ->
+  (forall a : RT R, rconj R (rneg R a) = rneg R (rconj R a)) ->
+  forall (op : lop G) (x y : farray G R),
+  lwf G R x -> lwf G R y -> lop_ok G (ndim G R (fbase G R x)) op ->
+  feq G R x y -> feq G R (run_op G R op x) (run_op G R op y).
+Proof. exact op_congr. Qed.
+
+Theorem C09_op_sync_congr :
+  forall (G : Symmetry) (R : Ring), GroupLaws G ->
+  (forall a : RT R, rneg R (rneg R a) = a) ->
+  rneg R (r0 R) = r0 R ->
+  (forall a : RT R, rconj R (rneg R a) = rneg R (rconj R a)) ->
+  forall (op : lop G) (x : farray G R),
+  lwf G R x -> lop_ok G (ndim G R (fbase G R x)) op ->
+  feq G R (run_op G R op x) (run_op G R op (f_phase_sync G R x)).
+Proof. exact op_sync_congr. Qed.
+
+(* ---- 4. arbitrary finite programs ---- *)
+Theorem C09_run_ops_value :
+  forall (G : Symmetry) (R : Ring), GroupLaws G ->
+  (forall a : RT R, rneg R (rneg R a) = a) ->
+  rneg R (r0 R) = r0 R ->
+  (forall a : RT R, rconj R (rneg R a) = rneg R (rconj R a)) ->
+  forall (p : list (lop G)) (x : farray G R),
+  lwf G R x -> prog_ok G (ndim G R (fbase G R x)) p ->
+  (f_value G R (run_ops G R p x), foddpos G R (run_ops G R p x))
+  = vrun G R p (f_value G R x) (foddpos G R x).
+Proof. exact run_ops_value. Qed.
+
+Theorem C09_programs_congr_gen :
+  forall (G : Symmetry) (R : Ring), GroupLaws G ->
+  (forall a : RT R, rneg R (rneg R a) = a) ->
+  rneg R (r0 R) = r0 R ->
+  (forall a : RT R, rconj R (rneg R a) = rneg R (rconj R a)) ->
+  forall (p : list (lop G)) (x y : farray G R),
+  lwf G R x -> lwf G R y -> prog_ok G (ndim G R (fbase G R x)) p ->
+  feq G R x y -> feq G R (run_ops G R p x) (run_ops G R p y).
+Proof. exact programs_congr_gen. Qed.
+
+Theorem C09_programs_congr :
+  forall (G : Symmetry) (R : Ring), GroupLaws G ->
+  (forall a : RT R, rneg R (rneg R a) = a) ->
+  rneg R (r0 R) = r0 R ->
+  (forall a : RT R, rconj R (rneg R a) = rneg R (rconj R a)) ->
+  forall (p : list (lop G)) (x : farray G R),
+  lwf G R x -> prog_ok G (ndim G R (fbase G R x)) p ->
+  feq G R (run_ops G R p x) (run_ops G R p (f_phase_sync G R x)).
+Proof. exact programs_congr. Qed.
+
+Theorem C09_programs_sync_anywhere :
+  forall (G : Symmetry) (R : Ring), GroupLaws G ->
+  (forall a : RT R, rneg R (rneg R a) = a) ->
+  rneg R (r0 R) = r0 R ->
+  (forall a : RT R, rconj R (rneg R a) = rneg R (rconj R a)) ->
+  forall (p q : list (lop G)) (x : farray G R),
+  lwf G R x -> prog_ok G (ndim G R (fbase G R x)) (p ++ q) ->
+  feq G R (run_ops G R (p ++ q) x) (run_ops G R (p ++ LSync G :: q) x).
+Proof. exact programs_sync_anywhere. Qed.
+
+Theorem C09_programs_congr_ZRing :
+  forall (G : Symmetry), GroupLaws G ->
+  forall (p : list (lop G)) (x : farray G ZRing),
+  lwf G ZRing x -> prog_ok G (ndim G ZRing (fbase G ZRing x)) p ->
+  feq G ZRing (run_ops G ZRing p x) (run_ops G ZRing p (f_phase_sync G ZRing x)).
+Proof. exact programs_congr_ZRing. Qed.
+
+Theorem C09_programs_congr_GRing :
+  forall (G : Symmetry), GroupLaws G ->
+  forall (p : list (lop G)) (x : farray G GRing),
+  lwf G GRing x -> prog_ok G (ndim G GRing (fbase G GRing x)) p ->
+  feq G GRing (run_ops G GRing p x) (run_ops G GRing p (f_phase_sync G GRing x)).
+Proof. exact programs_congr_GRing. Qed.
+
+(* ---- 5. operations that read blocks return EQUAL results on equivalent operands ---- *)
+Theorem C09_eqb_congr :
+  forall (G : Symmetry) (R : Ring) (x x' y y' : farray G R),
+  feq G R x x' -> feq G R y y' -> farray_eqb G R x y = farray_eqb G R x' y'.
+Proof. exact farray_eqb_feq. Qed.
+
+Theorem C09_tensordot_congr :
+  forall (G : Symmetry) (R : Ring), GroupLaws G ->
+  (forall a : RT R, rneg R (rneg R a) = a) ->
+  rneg R (r0 R) = r0 R ->
+  forall (a a' b b' : farray G R) (axes : nat + list Z * list Z) (mode : tmode),
+  NoDup (fsectors G R a) -> NoDup (fsectors G R b) -> tdot_inj G R a b axes ->
+  feq G R a a' -> feq G R b b' ->
+  f_tensordot G R a b axes mode = f_tensordot G R a' b' axes mode.
+Proof. exact tensordot_congr. Qed.
+
+Theorem C09_tensordot_sync_lwf :
+  forall (G : Symmetry) (R : Ring), GroupLaws G ->
+  (forall a : RT R, rneg R (rneg R a) = a) ->
+  rneg R (r0 R) = r0 R ->
+  forall (a b : farray G R) (axes : nat + list Z * list Z) (mode : tmode),
+  lwf G R a -> lwf G R b ->
+  (forall aa ab, parse_axes (ndim G R (fbase G R a)) (ndim G R (fbase G R b)) axes = Some (aa, ab) ->
+     NoDup aa /\ Forall (fun i => i < ndim G R (fbase G R a)) aa /\
+     NoDup ab /\ Forall (fun i => i < ndim G R (fbase G R b)) ab) ->
+  f_tensordot G R a b axes mode
+  = f_tensordot G R (f_phase_sync G R a) (f_phase_sync G R b) axes mode.
+Proof. exact tensordot_sync_lwf. Qed.
+
+Theorem C09_matmul_congr :
+  forall (G : Symmetry) (R : Ring), GroupLaws G ->
+  (forall a : RT R, rneg R (rneg R a) = a) ->
+  forall a a' b b' : farray G R,
+  NoDup (fsectors G R b) -> feq G R a a' -> feq G R b b' ->
+  f_matmul G R a b = f_matmul G R a' b'.
+Proof. exact matmul_congr. Qed.
+
+Theorem C09_trace_congr :
+  forall (G : Symmetry) (R : Ring), GroupLaws G ->
+  (forall a : RT R, rneg R (rneg R a) = a) ->
+  forall x y : farray G R,
+  NoDup (fsectors G R x) -> feq G R x y -> f_trace G R x = f_trace G R y.
+Proof. exact trace_congr. Qed.
+
+Theorem C09_fuse_congr :
+  forall (G : Symmetry) (R : Ring), GroupLaws G ->
+  (forall a : RT R, rneg R (rneg R a) = a) ->
+  rneg R (r0 R) = r0 R ->
+  forall (x y : farray G R) (groups : list (list nat)),
+  lwf G R x ->
+  Permutation (fuse_perm (ndim G R (fbase G R x)) groups) (seq 0 (ndim G R (fbase G R x))) ->
+  feq G R x y -> f_fuse G R x groups = f_fuse G R y groups.
+Proof. exact fuse_congr_lwf. Qed.
+
+Theorem C09_unfuse_congr :
+  forall (G : Symmetry) (R : Ring) (x y : farray G R) (axis : nat),
+  feq G R x y -> f_unfuse G R x axis = f_unfuse G R y axis.
+Proof. exact unfuse_congr. Qed.
+
+Theorem C09_einsum_congr :
+  forall (G : Symmetry) (R : Ring), GroupLaws G ->
+  (forall a : RT R, rneg R (rneg R a) = a) ->
+  rneg R (r0 R) = r0 R ->
+  forall (x y : farray G R) (lhs rhs : list nat),
+  lwf G R x -> feq G R x y -> f_einsum G R x lhs rhs = f_einsum G R y lhs rhs.
+Proof. exact einsum_congr_lwf. Qed.
+
+Print Assumptions C09_sync_value.
+Print Assumptions C09_sync_phases_empty.
+Print Assumptions C09_sync_idem.
+Print Assumptions C09_equiv_spec.
+Print Assumptions C09_equiv_iff_sync.
+Print Assumptions C09_sync_equiv.
+Print Assumptions C09_toggle_stored.
+Print Assumptions C09_toggle_not_stored.
+Print Assumptions C09_value_phase_flip.
+Print Assumptions C09_value_phase_transpose.
+Print Assumptions C09_value_phase_sector.
+Print Assumptions C09_value_phase_global.
+Print Assumptions C09_value_transpose.
+Print Assumptions C09_value_conj.
+Print Assumptions C09_value_dagger.
+Print Assumptions C09_run_op_value.
+Print Assumptions C09_run_op_lwf.
+Print Assumptions C09_op_congr.
+Print Assumptions C09_op_sync_congr.
+Print Assumptions C09_run_ops_value.
+Print Assumptions C09_programs_congr_gen.
+Print Assumptions C09_programs_congr.
+Print Assumptions C09_programs_sync_anywhere.
+Print Assumptions C09_programs_congr_ZRing.
+Print Assumptions C09_programs_congr_GRing.
+Print Assumptions C09_eqb_congr.
+Print Assumptions C09_tensordot_congr.
+Print Assumptions C09_tensordot_sync_lwf.
+Print Assumptions C09_matmul_congr.
+Print Assumptions C09_trace_congr.
+Print Assumptions C09_fuse_congr.
+Print Assumptions C09_unfuse_congr.
+Print Assumptions C09_einsum_congr.
